@@ -79,10 +79,6 @@ Lemma getj_lt : forall s h j, getj s h = Some j -> (h < length (jobs s))%nat.
 Proof. intros. apply nth_error_Some. unfold getj in H. congruence. Qed.
 
 (* ---- the effect of one atomic step on the shared state -------------------------------- *)
-(* the job after a finishing event: status, done = nil, result tag, error flag *)
-Definition fin_job (j : job) (st r : Z) (e : bool) : job :=
-  mkJob (jid j) st Nil r e (jfrags j) (jorph j).
-
 Inductive effect (s : sess) : pc -> sess -> Prop :=
 | EffNone : forall p, effect s p s
 | EffInsert : forall id, effect s (PTask3 id) (insert_job s id)
@@ -1050,11 +1046,32 @@ Qed.
 (* concurrent Task calls with one number (the recorded finding): both pass the check, both insert;
    the first job is overwritten, stays pending, is not in the table; the result for number 7 goes
    to the second job and a waiter of the first stays blocked *)
-Definition race_hist : hist :=
+Definition race_pre : hist :=
   [Spawn (OTask 7 [] false); Spawn (OTask 7 [] false);
-   Run 0%nat; Run 0%nat; Run 0%nat; Run 1%nat; Run 1%nat; Run 1%nat; Run 0%nat; Run 1%nat;
+   Run 0%nat; Run 0%nat; Run 0%nat; Run 1%nat; Run 1%nat; Run 1%nat].
+Definition race_post : hist :=
+  [Run 0%nat; Run 1%nat;
    Spawn (OHandle true 7 false 1); Run 2%nat; Run 2%nat; Run 2%nat;
    Spawn (OWait 0%nat); Run 3%nat; Run 3%nat; Run 3%nat].
+Definition race_hist : hist := race_pre ++ race_post.
+
+Lemma tasks_serial_cons : forall e r (c : cfg),
+  tasks_serial c (e :: r) =
+  (task_excl (fst c) /\ match exec step init_pc e c with Ok c' => tasks_serial c' r | _ => True end).
+Proof. reflexivity. Qed.
+
+Lemma tasks_serial_prefix : forall es1 es2 (c c1 : cfg),
+  tasks_serial c (es1 ++ es2) -> run_from c es1 = Ok c1 -> task_excl (fst c1).
+Proof.
+  induction es1 as [|e es1 IH]; intros es2 c c1 TS H.
+  - inversion H; subst. destruct es2; [exact (proj1 TS)|rewrite app_nil_l, tasks_serial_cons in TS; exact (proj1 TS)].
+  - rewrite <- app_comm_cons, tasks_serial_cons in TS. destruct TS as [_ TS].
+    rewrite run_from_cons in H. destruct (exec step init_pc e c) as [c2| |]; try discriminate.
+    eapply IH; eauto.
+Qed.
+
+Lemma race_pre_result : run race_pre = Ok ([PTask3 7; PTask3 7], s0).
+Proof. vm_compute. reflexivity. Qed.
 
 Lemma task_id_race_refuted :
   exists es c, run es = Ok c /\ ~ tasks_serial cfg0 es /\
@@ -1063,9 +1080,8 @@ Lemma task_id_race_refuted :
 Proof.
   exists race_hist. eexists. split; [vm_compute; reflexivity|]. cbn [fst snd].
   split; [|split; [|split; [|split; [|split]]]].
-  - intro TS. cbn in TS. decompose [and] TS.
-    match goal with X : task_excl [PTask3 7; PTask3 7] |- _ =>
-      specialize (X 0%nat 1%nat (PTask3 7) (PTask3 7) 7 eq_refl eq_refl eq_refl eq_refl); discriminate end.
+  - intro TS. pose proof (tasks_serial_prefix _ _ _ _ TS race_pre_result) as X.
+    specialize (X 0%nat 1%nat (PTask3 7) (PTask3 7) 7 eq_refl eq_refl eq_refl eq_refl). discriminate.
   - eexists. split; reflexivity.
   - eexists. split; reflexivity.
   - intros [k L]. cbn in L. discriminate.
@@ -1117,16 +1133,28 @@ Proof. induction l; intros; cbn; [reflexivity|]. f_equal. apply IHl. Qed.
 
 (* apply_op (what `check` evaluates on every generated case) = spawn the operation and let it
    run alone *)
+Lemma apply_op_unfold : forall o s, apply_op o s = run_solo 8 (init_pc o) s.
+Proof. intros. unfold apply_op. reflexivity. Qed.
+
+Lemma spawn_then : forall o rs (ps : list pc) s,
+  run_from (ps, s) (Spawn o :: rs) = run_from (ps ++ [init_pc o], s) rs.
+Proof. reflexivity. Qed.
+
+Lemma solo_sched_gen : forall n o s r s' (ps : list pc),
+  run_solo n (init_pc o) s = Ok (r, s') ->
+  exists p', run_from (ps, s) (Spawn o :: repeat (Run (length ps)) n) = Ok (ps ++ [p'], s') /\
+             (p' = PDone r \/ r = RBlocked).
+Proof.
+  intros n o s r s' ps H.
+  destruct (run_solo_sched n (init_pc o) s r s' (ps ++ [init_pc o]) (length ps) (nth_spawned _ _) H) as [p' [R Q]].
+  exists p'. split; [|exact Q]. rewrite spawn_then, R, upd_app_last. reflexivity.
+Qed.
+
 Lemma solo_is_schedule : forall o s r s' (ps : list pc),
   apply_op o s = Ok (r, s') ->
   exists p', run_from (ps, s) (Spawn o :: repeat (Run (length ps)) 8) = Ok (ps ++ [p'], s') /\
              (p' = PDone r \/ r = RBlocked).
-Proof.
-  intros o s r s' ps H. unfold apply_op in H.
-  destruct (run_solo_sched 8 (init_pc o) s r s' (ps ++ [init_pc o]) (length ps) (nth_spawned _ _) H) as [p' [R Q]].
-  exists p'. split; [|exact Q]. rewrite run_from_cons, exec_spawn. cbn [bind fst snd].
-  rewrite R, upd_app_last. reflexivity.
-Qed.
+Proof. intros o s r s' ps H. rewrite apply_op_unfold in H. exact (solo_sched_gen 8 o s r s' ps H). Qed.
 
 (* ---- the pinned code fails the same statements (regression witnesses) ---------------------- *)
 (* Task(7); Cancel: the job leaves the table with Status = waiting *)
@@ -1255,3 +1283,26 @@ Proof.
           Spawn (OHandle true 7 false 1); Run 2%nat; Run 2%nat; Run 2%nat; Run 1%nat].
   eexists. eexists. split; [vm_compute; reflexivity|]. split; [reflexivity|]. split; reflexivity.
 Qed.
+
+(* the two statements about results, from the empty session *)
+Lemma result_attribution_run : forall es1 es2 c1 c2 c3 wf id err tag,
+  run es1 = Ok c1 -> run_from c1 (Spawn (OHandle wf id err tag) :: es2) = Ok c2 ->
+  exec step init_pc (Run (length (fst c1))) c2 = Ok c3 ->
+  snd c3 = snd c2 \/
+  (wf = true /\ 2 <= id /\ exists h j,
+     lookup id (table (snd c2)) = Some h /\ getj (snd c2) h = Some j /\ jdone j = Open /\
+     snd c3 = set_table (setj (snd c2) h (fin_job j (if err then StError else StCompleted) tag err))
+                        (remove id (table (snd c2)))).
+Proof. intros es1 es2 c1 c2 c3 wf id err tag H. apply result_attribution. eapply run_inv; eauto. Qed.
+
+Lemma unknown_result_ignored_run : forall es1 es2 c1 c2 c3 wf id err tag,
+  run es1 = Ok c1 -> run_from c1 (Spawn (OHandle wf id err tag) :: es2) = Ok c2 ->
+  exec step init_pc (Run (length (fst c1))) c2 = Ok c3 ->
+  mem id (table (snd c2)) = false \/ wf = false \/ id < 2 ->
+  snd c3 = snd c2.
+Proof. intros es1 es2 c1 c2 c3 wf id err tag H. apply unknown_result_ignored. eapply run_inv; eauto. Qed.
+
+Lemma serial_tracked : forall es c h,
+  tasks_serial cfg0 es -> run es = Ok c ->
+  ~ orphaned (snd c) h /\ (tracked (snd c) h <-> pending (snd c) h).
+Proof. intros es c h TS H. split; [eapply serial_no_orphan|eapply serial_tracked_iff_pending]; eauto. Qed.
